@@ -9,6 +9,14 @@ import AgpTpf.Model.Remap
 namespace AgpTpf.ImpSmall
 open AgpTpf
 
+/-! ### the join of an `if` whose branches both fall through: `(if c then .ok a else .ok b) >>= f` -/
+
+theorem ok_bind {α β : Type} (a : α) (f : α → R β) : ((Except.ok a : R α) >>= f) = f a := rfl
+
+theorem ite_ok_bind {α β : Type} (c : Prop) [Decidable c] (a b : α) (f : α → R β) :
+    ((if c then (Except.ok a : R α) else Except.ok b) >>= f) = f (if c then a else b) := by
+  split <;> rfl
+
 /-! ### `forIn` with a body that never fails, never breaks and never returns is a `foldl` -/
 
 theorem forIn_pure {α σ ρ : Type} (step : α → σ → σ) (body : α → σ → R (PyRt.Ctl σ ρ))
